@@ -240,13 +240,25 @@ func body(c cfg) func() {
 			lastCounters["ownership_violations_reported_by_C11"] = len(v)
 		}
 		lastOutcome = fmt.Sprintf("resp=%d", totalResp)
-		if errs := vkit.Log.TakeErrors(); len(errs) > 0 {
-			fails = append(fails, fmt.Sprintf("logged-error|nbio logged an error (a recovered panic?): %s", errs[0]))
+		if errs := logErrors(); errs != "" {
+			fails = append(fails, "logged-error|nbio logged an error (a recovered panic?): "+errs)
 		}
 		for _, f := range fails {
 			vsched.Fail("%s", f)
 		}
 	}
+}
+
+func logErrors() string {
+	errs := vkit.Log.TakeErrors()
+	if len(errs) == 0 {
+		return ""
+	}
+	e := errs[0]
+	if i := strings.Index(e, "\n"); i > 0 {
+		e = e[:i]
+	}
+	return e
 }
 
 func backlogged() bool {
@@ -261,7 +273,7 @@ func check(r *vsched.Result) string {
 		}
 	}
 	for _, b := range r.Blocked {
-		if b.Name == "main" || strings.HasPrefix(b.Name, "client") {
+		if b.Name == "main" || strings.HasPrefix(b.Name, "client") || strings.HasPrefix(b.Name, "caller") {
 			return fmt.Sprintf("stuck|thread %s blocked at the end (%s)", b.Name, b.Why)
 		}
 	}
@@ -337,6 +349,28 @@ func build(tier string) []*vkit.Scenario {
 					}
 				}
 			}
+		}
+	}
+	// HTTP client: pipelined Do calls against a scripted server
+	for _, m := range ekit.Modes {
+		for _, cc := range []ccfg{
+			{n: 1, answers: 1, then: "none"}, {n: 2, answers: 2, then: "none"}, {n: 3, answers: 3, then: "none", threads: 2},
+			{n: 2, answers: 1, then: "close"}, {n: 2, answers: 0, then: "close"}, {n: 3, answers: 1, then: "close", threads: 2},
+			{n: 2, answers: 1, then: "silent", timeout: true}, {n: 1, answers: 0, then: "silent", timeout: true},
+			{n: 2, answers: 2, then: "none", timeout: true},
+		} {
+			cc.mode = m
+			if cc.threads == 0 {
+				cc.threads = 1
+			}
+			cc.p = 2
+			if thorough {
+				cc.p = 3
+			}
+			out = append(out, &vkit.Scenario{Name: cc.name(), Body: clientBody(cc), Check: check, P: cc.p,
+				Opts:     vsched.Options{Horizon: 60000},
+				Counters: func() map[string]int { return lastCounters }, Outcome: func() string { return lastOutcome },
+				NonTrivial: func(mm map[string]int) bool { return mm["responses"] > 0 || mm["client_errors"] > 0 }})
 		}
 	}
 	return out
